@@ -94,7 +94,13 @@ static void os_hex8(u64 v)
 }
 #define OS_NUM(name, T) void *name(void *os, T v) { os_cur = os; os_hex8((u64)v); return os; }
 #else
+/* numbers are written as '#'; with OS_CAPTURE their values are recorded in insertion order (os_num[0..os_nnum)) */
+#ifdef OS_CAPTURE
+u64 os_num[8]; u32 os_nnum;
+#define OS_NUM(name, T) void *name(void *os, T v) { os_cur = os; os_put('#'); if (os_nnum < 8) os_num[os_nnum] = (u64)v; os_nnum++; return os; }
+#else
 #define OS_NUM(name, T) void *name(void *os, T v) { os_cur = os; os_put('#'); return os; }
+#endif
 #endif
 #ifdef DECL__ZNSolsEm
 OS_NUM(_ZNSolsEm, u64)
